@@ -29,6 +29,7 @@ import statespace2coq  # noqa: E402
 import mutation2coq  # noqa: E402
 import coalescent2coq  # noqa: E402
 import serial2coq  # noqa: E402
+import utils2coq  # noqa: E402
 
 # one entry per translated source file: translator module, source, committed generated file, equivalence proofs
 TIES = {
@@ -43,6 +44,7 @@ TIES = {
     'marginals': dict(mod=marginals2coq, src='distributions.py', gen='MarginalsGen', equiv='GenMarginalsEquiv'),
     'statespace': dict(mod=statespace2coq, src='state_space.py', gen='StateSpaceGen', equiv='GenStateSpaceEquiv'),
     'coalescent': dict(mod=coalescent2coq, src='distributions.py', gen='CoalescentGen', equiv='GenCoalescentEquiv'),
+    'utils': dict(mod=utils2coq, src='utils.py', gen='UtilsGen', equiv='GenUtilsEquiv'),
     'serial': dict(mod=serial2coq, src='', gen='SerialGen', equiv='GenSerialEquiv', src_is_dir=True),
     'mutation': dict(mod=mutation2coq, src='', gen='MutationGen', equiv='GenMutationEquiv', src_is_dir=True),
     'guards': dict(mod=guards2coq, src='', gen='GuardsGen', equiv='GenGuardsEquiv', src_is_dir=True),
